@@ -277,11 +277,13 @@ class Impl:
                 r.mkdir(d)
             r.put(d + "/name", fs_of(c.get("name")))
             for j, s in enumerate(c.get("temps", []), 1):
+                j = s.get("idx", j)
                 for k in ("input", "label", "max", "crit"):
                     r.put("%s/temp%d_%s" % (d, j, k), fs_of(s.get(k)))
                 if s.get("other"):
                     r.put("%s/temp%d_alarm" % (d, j), b"0\n")
             for j, f in enumerate(c.get("fans", []), 1):
+                j = f.get("idx", j)
                 for k in ("input", "label"):
                     r.put("%s/fan%d_%s" % (d, j, k), fs_of(f.get(k)))
                 if f.get("other"):
@@ -289,7 +291,7 @@ class Impl:
 
     def build_temps(self, case):
         """case: chips, coretemp (n files), zones [{temp, typ, trips:[{k, typ, temp, hyst}]}].
-        Returns per zone the set-iteration order of its trip-point indices (as this interpreter has it)."""
+        Returns per zone the set-iteration order of the derived trip-point NAMES (as this interpreter has it)."""
         r = self.red
         r.clear()
         self.build_hwmon(case.get("chips", []))
@@ -307,8 +309,10 @@ class Impl:
                 r.put("%s/trip_point_%d_temp" % (d, t["k"]), fs_of(t.get("temp")))
                 if t.get("hyst"):
                     r.put("%s/trip_point_%d_hyst" % (d, t["k"]), b"0\n")
+            for name, v in z.get("extra", []):
+                r.put("%s/%s" % (d, name), fs_of(v))
             paths = _GlobShim(r).glob(d + "/trip_point*")
-            orders.append([int(n.split("_")[2]) for n in trip_set_order(paths)])
+            orders.append(trip_set_order(paths))
         return orders
 
     def _rows(self, d, plat):
@@ -347,7 +351,8 @@ class Impl:
 
     # ---- battery
     BAT_FILES = ("energy_now", "charge_now", "power_now", "current_now", "energy_full", "charge_full",
-                 "time_to_empty_now", "capacity", "status", "online")
+                 "time_to_empty_now", "capacity", "status", "online",
+                 "type", "scope")          # the last two are not modelled: psutil must not look at them
 
     def run_battery(self, case):
         r = self.red
